@@ -322,6 +322,66 @@ def worker(cases):
     return {"counts": {"evaluations": ran, "non_default_schedules": sched}, "violations": viol}
 
 
+def default_methods_worker(N):
+    """Models that do NOT override the optional methods (unit-hypercube prior, in_bounds): the batch
+    interface of the inherited defaults must equal their pointwise evaluation, including coordinates
+    exactly on the faces of the cube / box."""
+    from nessai.model import Model
+    from nessai.livepoint import numpy_array_to_live_points
+    from nessai.utils.multiprocessing import initialise_pool_variables
+
+    class Plain(Model):
+        def __init__(self):
+            self.names = ["x0", "x1"]
+            self.bounds = {"x0": [-4.0, 4.0], "x1": [-2.0, 6.0]}
+
+        def log_prior(self, x):
+            return np.log(self.in_bounds(x), dtype="f8") + x["x0"] * 0.0
+
+        def log_likelihood(self, x):
+            return x["x0"] * x["x0"] * (-0.5) + x["x1"] * 0.25
+
+        def from_unit_hypercube(self, x):
+            out = x.copy()
+            out["x0"] = 8.0 * x["x0"] + (-4.0)
+            out["x1"] = 8.0 * x["x1"] + (-2.0)
+            return out
+
+    errs, ran = [], 0
+    faces = [0.0, 1.0, np.nextafter(1.0, 0.0), np.nextafter(0.0, 1.0), -0.0, np.nextafter(1.0, 2.0), 0.5, 0.25, -1e-300, 1.0 + 1e-12]
+    for n in range(0, N + 1):
+        a = np.array([[faces[(i * 3 + n) % len(faces)], faces[(i * 7 + 1) % len(faces)]] for i in range(n)], dtype=float).reshape(n, 2)
+        x = numpy_array_to_live_points(a, ["x0", "x1"])
+        for pool_k in (None, 2, 3):
+            for chunk in (None, 1, 3):
+                m = Plain()
+                m.likelihood_chunksize = chunk
+                if pool_k:
+                    initialise_pool_variables(m)
+                    m.configure_pool(pool=FakePool(pool_k, perm_id=0, sized=True))
+                ref = np.array([float(np.asarray(m.log_prior_unit_hypercube(x[i : i + 1])).reshape(-1)[0]) for i in range(n)], dtype=float)
+                x0 = x.tobytes()
+                try:
+                    with np.errstate(all="ignore"):
+                        out = np.asarray(m.batch_evaluate_log_prior_unit_hypercube(x), dtype=float)
+                except Exception as e:
+                    errs.append((f"default-unit-prior:raises-{type(e).__name__}", f"{e} n={n} pool={pool_k} chunksize={chunk}"))
+                    continue
+                ran += 1
+                if out.shape != (n,) or out.tobytes() != ref.tobytes():
+                    errs.append(("default-unit-prior:batch-differs-from-pointwise", f"{out} vs {ref} at {a.tolist()} (n={n} pool={pool_k} chunksize={chunk})"))
+                if x.tobytes() != x0:
+                    errs.append(("default-unit-prior:input-modified", f"n={n}"))
+                if m.likelihood_evaluations != 0:
+                    errs.append(("default-unit-prior:evaluation-counter-changed-by-prior", f"n={n}"))
+    seen, viol = set(), []
+    for k, d in errs:
+        if k not in seen:
+            seen.add(k)
+            viol.append((k, d, {"case": d}))
+    return {"counts": {"evaluations": ran}, "violations": viol}
+
+
 def real_pool_case(item):
     """Real multiprocessing pools (fork): created by nessai (n_pool) or user supplied."""
     from nessai.utils.multiprocessing import initialise_pool_variables
@@ -387,8 +447,10 @@ def run(ctx):
         real = [r for r in real if r[0] in (1, 3) or r[3] is None]
     for it, res in ctx.pmap(real_pool_case, real, nproc=8):
         ctx.merge(res)
+    for it, res in ctx.pmap(default_methods_worker, [N]):
+        ctx.merge(res)
     ctx.set("distinct_nontrivial", len(cases))
-    ctx.set("rule", "full grid: n 0..N x chunksize None|1..N+1 x pool {none, sized fake 1..4, unsized fake} x (vectorisable, return shape) x {explicit, auto-detected} vectorisation flag x {likelihood, prior, unit-hypercube prior} x unit_hypercube flag x parallelise_prior; each pooled case under every completion order (all permutations for <=4 tasks, rotations+reversal otherwise); real fork pools on a sub-grid. Distinct/non-trivial: distinct grid cells (schedules counted separately)")
+    ctx.set("rule", "models that keep the inherited unit-hypercube prior, on coordinates exactly on / next to the faces of the cube; full grid: n 0..N x chunksize None|1..N+1 x pool {none, sized fake 1..4, unsized fake} x (vectorisable, return shape) x {explicit, auto-detected} vectorisation flag x {likelihood, prior, unit-hypercube prior} x unit_hypercube flag x parallelise_prior; each pooled case under every completion order (all permutations for <=4 tasks, rotations+reversal otherwise); real fork pools on a sub-grid. Distinct/non-trivial: distinct grid cells (schedules counted separately)")
     ctx.set("bounds", dict(N=N, pool_sizes=[1, 2, 3, 4], real_pool_n=[0, 1, 5, 12]))
     ctx.set("exhaustive", True)
     ctx.sample({"n": 5, "chunksize": 2, "pool": ["sized", 3], "vectorisable": True, "fn": "log_likelihood", "unit_hypercube": True, "completion_order": [2, 0, 1]})
